@@ -47,7 +47,8 @@ def run(ctx):
     work = []
     for lang, pats in (('en', G.EN_PATTERNS), ('ja', G.JA_PATTERNS)):
         pool, feats = pools[lang]
-        work += [(lang,) + t for t in G.pattern_pairs(rng, pats, pool, feats, n)]
+        deep = gen_cat.deep_pool(lang, rng)
+        work += [(lang,) + t for t in G.pattern_pairs(rng, pats, pool, feats, n, deep=deep)]
         # bounded random linear patterns sharing some variables
         rp = []
         for _ in range(40):
@@ -57,7 +58,7 @@ def run(ctx):
             vy = vs[2:6]
             py = random_linear_pattern(rng, vy, 3)
             rp.append((str(px), str(py)))
-        work += [(lang,) + t for t in G.pattern_pairs(rng, rp, pool, feats, n // 2, slashes=('/', '\\', '|'))]
+        work += [(lang,) + t for t in G.pattern_pairs(rng, rp, pool, feats, n // 2, slashes=('/', '\\', '|'), deep=deep)]
         for _ in range(n // 5):
             px, py = rng.choice(pats)
             work.append((lang, px, py, gen_cat.random_cat(rng, pool[:60], 3), gen_cat.random_cat(rng, pool[:60], 3)))
